@@ -357,7 +357,7 @@ fn attempt(case: &Case) -> Result<(String, String, String), String> {
         },
     };
     let listener = server_rt
-        .block_on(TcpListener::bind("127.0.0.1:0"))
+        .block_on(async { net::bind_local() })
         .map_err(|e| e.to_string())?;
     let port = listener.local_addr().map_err(|e| e.to_string())?.port();
     let user = "verif-user-name".to_string();
